@@ -14,7 +14,7 @@ import traceback
 HERE = os.path.dirname(os.path.abspath(__file__))
 ROOT = os.path.dirname(HERE)
 sys.path.insert(0, ROOT)
-sys.path.insert(1, '/repo')
+sys.path.insert(1, os.environ.get('VERIF_REPO', '/repo'))
 sys.path.append(os.path.join(ROOT, '.deps'))
 warnings.filterwarnings('ignore')
 
